@@ -59,7 +59,7 @@ func VerifC09_ReceiverErrorCloses() {
 	f, st, chid := verifInstalled(1, 0)
 	zz.Assume(st.SelfPeer == st.Initiator && !channels.IsChannelTerminated(st.Status) && !channels.IsChannelCleaningUp(st.Status))
 	resp := verifArbitraryResponse("resp")
-	resp.TransferId = uint64(chid.ID)
+	zz.SetInt(&resp.TransferId, uint64(chid.ID))
 	zz.Assume(resp.IsValidationResult() && !resp.RequestAccepted)
 	err := f.rcv.receiveResponse(context.Background(), chid.Responder, resp)
 	zz.Settle()
